@@ -117,7 +117,12 @@ def gen_case(seed, tier, idx):
         elif k < 0.85:
             ops.append(["align", i, rnd.choice([0, 1, 2, 3, 4, -1, "x", None])])
         elif k < 0.9:
-            ops.append(["freeze", i])
+            # frozen explicitly, by being handed to a peripheral's metadata, or by being handed to a csr.Bridge
+            # (which accepts a map without windows; the resources of this engine are csr.Register objects)
+            how = rnd.choice(["", "", "periph", "bridge"])
+            if how == "bridge" and any(o[0] == "win" and o[1] == i for o in ops):
+                how = "periph"
+            ops.append(["freeze", i] + ([how] if how else []))
         else:
             newmap()
             continue
@@ -457,9 +462,12 @@ def run_impl(case):
     from amaranth.lib import wiring
     from amaranth_soc.memory import MemoryMap
 
-    class Res(wiring.Component):
+    from amaranth_soc import csr
+    from amaranth_soc.periph import PeripheralInfo
+
+    class Res(csr.Register, access="rw"):
         def __init__(self):
-            super().__init__({})
+            super().__init__({"f": csr.Field(csr.action.RW, 1)})
 
     class ResEq(Res):
         """resources that compare (and hash) equal to each other: distinct objects are distinct resources all
@@ -519,7 +527,13 @@ def run_impl(case):
         elif op[0] == "align":
             out.append(call(lambda: [maps[op[1]].align_to(_pyarg(op[2]))]))
         elif op[0] == "freeze":
-            maps[op[1]].freeze()
+            how = op[2] if len(op) > 2 else ""
+            if how == "periph":
+                PeripheralInfo(memory_map=maps[op[1]])
+            elif how == "bridge":
+                csr.Bridge(maps[op[1]])
+            else:
+                maps[op[1]].freeze()
             out.append([0])
         elif op[0] == "obs":
             addrs, rids = op[1], op[2]
@@ -552,7 +566,11 @@ def run_impl(case):
                         fr.append([0, enc_info(m.find_resource(o), ids)])
                     except Exception as e:
                         fr.append([EXC.get(type(e).__name__, 5)])
-                o_all.append([rs, ws, ps, ar, dc, fr, m.align_to(0)])
+                try:
+                    cursor = m.align_to(0)
+                except Exception:
+                    cursor = -1          # the neutral probe itself is refused: reported by the oracle
+                o_all.append([rs, ws, ps, ar, dc, fr, cursor])
             out.append(o_all)
     return out
 
@@ -755,7 +773,8 @@ def oracle(case, obs):
                 if [[r[0], r[2], r[3]] for r in rs] != exp_r or [[w[0], w[2], w[3], w[4]] for w in ws] != exp_w:
                     out.append(("C02", k, f"map {mi}: resources()/windows() {rs} {ws} differ from the ranges handed out {exp_r} {exp_w}"))
                 if cursor != align_up(sp.cursor, sp.al):
-                    out.append(("C02", k, f"map {mi}: placement cursor {cursor}, expected {sp.cursor}"))
+                    out.append(("C02", k, f"map {mi}: placement cursor {'probe align_to(0) raised' if cursor == -1 else cursor}, "
+                                          f"expected {sp.cursor}"))
                 allr = sorted([(r[2], r[3]) for r in rs] + [(w[2], w[3]) for w in ws])
                 for (a, b), (c, d) in zip(allr, allr[1:]):
                     if b > c:
